@@ -34,7 +34,7 @@ use convert_case::{Case, Casing};
 use itertools::{Itertools, chain, zip_eq};
 use num_bigint::BigUint;
 use num_integer::Integer;
-use num_traits::Signed;
+use num_traits::{Signed, Zero};
 use serde::{Deserialize, Serialize};
 use starknet_types_core::felt::Felt as Felt252;
 use starknet_types_core::hash::{Blake2Felt252, Poseidon, StarkHash};
@@ -553,7 +553,12 @@ impl CasmContractClass {
             .map(|big_int| {
                 let (_q, reminder) = big_int.magnitude().div_rem(&prime);
                 BigUintAsHex {
-                    value: if big_int.is_negative() { &prime - reminder } else { reminder },
+                    // A negative multiple of the prime is 0, not the prime itself.
+                    value: if big_int.is_negative() && !reminder.is_zero() {
+                        &prime - reminder
+                    } else {
+                        reminder
+                    },
                 }
             })
             .collect_vec();
